@@ -17,7 +17,7 @@ type boundsException struct {
 	// condition of an if statement with a returning body that must dominate the access, if any
 	needGuard string
 	// additional structural condition checked on the current tree, if any
-	check func(fs *FuncSrc) bool
+	check  func(fs *FuncSrc) bool
 	reason string
 }
 
